@@ -127,6 +127,20 @@ pub struct Case {
     /// RouterConfig.ignore_path_and_query_case
     #[serde(default)]
     pub ignore_case: bool,
+    /// how the project's host is written everywhere (rule targets, examples, project domains):
+    /// 0 = example.org, 1 = an IPv4 literal, 2 = an IPv6 literal
+    #[serde(default)]
+    pub host_kind: u8,
+}
+
+const HOST_SPELLINGS: [&str; 3] = [HOST, "192.168.10.20", "[2001:db8::1]"];
+
+/// the same document with the project's host written as an address literal
+fn rehost(v: &Value, kind: u8) -> Value {
+    if kind == 0 {
+        return v.clone();
+    }
+    serde_json::from_str(&v.to_string().replace(HOST, HOST_SPELLINGS[kind as usize])).expect("rehost")
 }
 
 thread_local! {
@@ -235,9 +249,9 @@ struct Built {
 
 fn build(case: &Case) -> Built {
     let alpha = alphabet();
-    let base_rules: Vec<Value> = case.base.iter().map(|i| alpha[*i][0].clone()).collect();
-    let added: Vec<Value> = case.added.iter().map(|i| alpha[*i][0].clone()).collect();
-    let updated: Vec<Value> = case.updated.iter().map(|i| alpha[*i][1].clone()).collect();
+    let base_rules: Vec<Value> = case.base.iter().map(|i| rehost(&alpha[*i][0], case.host_kind)).collect();
+    let added: Vec<Value> = case.added.iter().map(|i| rehost(&alpha[*i][0], case.host_kind)).collect();
+    let updated: Vec<Value> = case.updated.iter().map(|i| rehost(&alpha[*i][1], case.host_kind)).collect();
     let deleted: Vec<String> = case.deleted.iter().map(|i| alpha[*i][0]["id"].as_str().unwrap().to_string()).collect();
     let mut final_rules: Vec<Value> = Vec::new();
     for r in &base_rules {
@@ -253,7 +267,7 @@ fn build(case: &Case) -> Built {
         base_rules,
         change_set: json!({"added": added, "updated": updated, "deleted": deleted}),
         final_rules,
-        domains: if case.with_domain { vec![HOST.to_string()] } else { vec![] },
+        domains: if case.with_domain { vec![HOST_SPELLINGS[case.host_kind as usize].to_string()] } else { vec![] },
     }
 }
 
@@ -483,7 +497,7 @@ pub fn check_case(case: &Case) -> Vec<(String, String)> {
     let before = probe_answers(&shared);
     let before_snap = shared.verif_snapshot();
     let ctx = format!("base {:?} change-set +{:?} ~{:?} -{:?} hops {} domains {:?}", case.base, case.added, case.updated, case.deleted, case.max_hops, b.domains);
-    let example = json!({"url": case.example_url, "method": case.example_method, "headers": null, "ip_address": null, "response_status_code": case.example_code, "must_match": true, "unit_ids_applied": []});
+    let example = json!({"url": case.example_url.replace(HOST, HOST_SPELLINGS[case.host_kind as usize]), "method": case.example_method, "headers": null, "ip_address": null, "response_status_code": case.example_code, "must_match": true, "unit_ids_applied": []});
     let mut compare = |name: &str, project: Value, standalone: Value, out: &mut Vec<(String, String)>| {
         let p = strip(&project);
         let s = strip(&standalone);
@@ -650,7 +664,7 @@ pub fn cases(tier: Tier) -> Vec<Case> {
         }
     }
     let mut out = Vec::new();
-    let urls = ["/a", "/b", "/c", "/s", "/x", "/p/x", "/zzz", "http://[::1", "/n", "https://example.org/n", "/Shop/x", "/shop/x"];
+    let urls = ["/a", "/b", "/c", "/s", "/x", "/p/x", "/zzz", "http://[::1", "/n", "https://example.org/n", "/Shop/x", "/shop/x", "https://example.org/a", "http://example.org/b"];
     let dc = alphabet().iter().position(|v| v[0]["id"] == "dc").unwrap();
     for (bi, base) in bases.iter().enumerate() {
         let absent: Vec<usize> = (0..n).filter(|i| !base.contains(i)).collect();
@@ -695,7 +709,14 @@ pub fn cases(tier: Tier) -> Vec<Case> {
                             impact_action: action.to_string(),
                             example_method,
                             ignore_case: false,
+                            host_kind: 0,
                         };
+                        // the project served on an address literal: absolute examples, with the address as project domain
+                        if with_domain && url.contains(HOST) {
+                            for host_kind in [1u8, 2] {
+                                out.push(Case { host_kind, ..c.clone() });
+                            }
+                        }
                         if base.contains(&dc) || added.contains(&dc) || updated.contains(&dc) {
                             out.push(Case { ignore_case: true, ..c.clone() });
                         }
